@@ -297,7 +297,32 @@ def check_c14(exe, tier, seed, verdict):
                   "newopt 1 %s" % hx("ROOT_PREFIX=" + R), "readconfig 1 %s %s %s %s x3d x23" % (hx("prj") if prj else "-", hx("/usr/lib"), hx("cfg"), hx("conf"))]
             sc += ["get String 1 - %s" % hx(k_) for k_ in ("U", "R", "E", "K")] + ["free 1"]
             cases.append((tag, sc))
+    # PARSING_DIRS lists that are long as a WHOLE (every entry a legal path): each listed directory is a layer
+    pd_shapes = [(2, 300), (5, 950), (8, 1000), (4, 2000), (12, 700)]
+    for k_, L_ in pd_shapes:
+        R = ROOT + "/pdl%d_%d" % (k_, L_)
+        dirs = []
+        for j in range(k_):
+            d_ = R + "/l%d" % j
+            while len(d_) + 60 < L_:
+                d_ += "/" + ("%d" % (j % 10)) * 49
+            dirs.append(d_)
+        sc = []
+        for j, d_ in enumerate(dirs):
+            sc.append("file %s %s" % (hx(d_ + "/cfg.conf.d/d%d.conf" % j), hx("D%d=%d\nTOP=%d\n" % (j, j, j))))
+        sc.append("file %s %s" % (hx(dirs[-1] + "/cfg.conf"), hx("MAIN=%d\n" % (k_ - 1))))
+        sc += ["newopt 1 %s" % hx("PARSING_DIRS=" + ":".join(dirs)), "readconfig 1 - - %s %s x3d x23" % (hx("cfg"), hx("conf"))]
+        sc += ["get String 1 - %s" % hx("D%d" % j) for j in range(k_)] + ["get String 1 - %s" % hx("TOP"), "get String 1 - %s" % hx("MAIN"), "free 1"]
+        cases.append(("parsingdirs-%d-%d" % (k_, L_), sc))
     res = core.run_cases(exe, cases, per_case_timeout=120)
+    for k_, L_ in pd_shapes:
+        out = res.get("parsingdirs-%d-%d" % (k_, L_))
+        if out and not out["crash"]:
+            got = [(e["rc"], e.get("out")) for e in out["ev"] if e["op"] == "get"]
+            want = [("ECONF_SUCCESS", str(j)) for j in range(k_)] + [("ECONF_SUCCESS", str(k_ - 1))] * 2
+            if got != want:
+                verdict.violation("C14:parsing-dirs", {"kind": "parsingdirs", "dirs": k_, "each": L_, "got": got},
+                                  "PARSING_DIRS with %d directories of about %d bytes each (%d bytes in all): the layers delivered %s, expected %s" % (k_, L_, k_ * L_, got, want))
     for n in rp_lens:
         for prj in ("", "-prj"):
             out = res.get("rootprefix-%d%s" % (n, prj))
@@ -357,7 +382,7 @@ def check_c14(exe, tier, seed, verdict):
         verdict.violation("C14:%s:%s" % (e["kind"], e["api"].replace(" ", "")), {"kind": "long", "event": e, "spec": x["spec"]},
                           "%s of %d bytes through %s: %s, %d bytes came back, head intact %s, tail intact %s" % (e["kind"], e["len"], e["api"], e["rc"], e["out_len"], e["head_ok"], e["tail_ok"]))
     cov = {"evaluations": len(events), "distinct_nontrivial": nn,
-           "rule": "field kinds {value, quoted value, key, section name, continuation line, comment before, comment after, second definition joined under JOIN_SAME_ENTRIES} x lengths {EVERY length 1..%d and BUFSIZ-70..BUFSIZ+70%s, 2*BUFSIZ, 64 Ki, %s} through: econf_readFile, plain / extended getters, listings, econf_mergeFiles + getters, econf_writeFile + econf_readFile + getters, and the setters; file names of 6..256 bytes read directly and as drop-in; MAIN file names of 12..256 bytes (with suffix) through econf_readDirs, econf_readConfig and econf_readDirsHistory; paths of 200 and PATH_MAX-3 .. PATH_MAX+2 bytes; option strings of 8 Ki .. 70 Ki; drop-in directory postfix lists whose entries differ in length (2 .. 243 bytes) in every order, as process-wide list and as CONFIG_DIRS; ROOT_PREFIX values of 60 .. 3000 bytes with files in the vendor, /run and /etc layer below them. The field carries distinct head and tail markers; Envelope!TLong requires out_len = len and both markers (names beyond NAME_MAX / PATH_MAX: an error code, no crash). Every kind once more at 64 Ki and 1 Mi on a thread with a 256 KiB stack (uninstrumented build), plus 20 entries with two 10000-byte comments each, written and read back there. non-trivial = length >= BUFSIZ-2." % (330 if tier == "quick" else 1099, "" if tier == "quick" else ", around 2*BUFSIZ and 64 Ki", "1 Mi" if tier == "thorough" else "200000"),
+           "rule": "field kinds {value, quoted value, key, section name, continuation line, comment before, comment after, second definition joined under JOIN_SAME_ENTRIES} x lengths {EVERY length 1..%d and BUFSIZ-70..BUFSIZ+70%s, 2*BUFSIZ, 64 Ki, %s} through: econf_readFile, plain / extended getters, listings, econf_mergeFiles + getters, econf_writeFile + econf_readFile + getters, and the setters; file names of 6..256 bytes read directly and as drop-in; MAIN file names of 12..256 bytes (with suffix) through econf_readDirs, econf_readConfig and econf_readDirsHistory; paths of 200 and PATH_MAX-3 .. PATH_MAX+2 bytes; option strings of 8 Ki .. 70 Ki; drop-in directory postfix lists whose entries differ in length (2 .. 243 bytes) in every order, as process-wide list and as CONFIG_DIRS; ROOT_PREFIX values of 60 .. 3000 bytes with files in the vendor, /run and /etc layer below them; PARSING_DIRS lists of 2..12 directories of 300..2000 bytes each (up to 8400 bytes as a whole) with a drop-in in every one. The field carries distinct head and tail markers; Envelope!TLong requires out_len = len and both markers (names beyond NAME_MAX / PATH_MAX: an error code, no crash). Every kind once more at 64 Ki and 1 Mi on a thread with a 256 KiB stack (uninstrumented build), plus 20 entries with two 10000-byte comments each, written and read back there. non-trivial = length >= BUFSIZ-2." % (330 if tier == "quick" else 1099, "" if tier == "quick" else ", around 2*BUFSIZ and 64 Ki", "1 Mi" if tier == "thorough" else "200000"),
            "samples": events[:3], "exhaustive": True,
            "trusted_base": ["gcc ASan/UBSan", "TLC 1.8.0 (Envelope!TLong)", "drv.c longprobe/longname"]}
     return cov
